@@ -138,7 +138,10 @@ pub fn units(tier: Tier, seed: u64) -> Vec<Unit> {
     }
     for cfg in cfgs {
         let n = cfg.n();
-        let scripts: Vec<Vec<usize>> = tier.pick(vec![vec![], vec![1, 0, 1], vec![0, 1]], vec![vec![], vec![1, 0, 1], vec![0, 1], vec![0, 1, 1, 1], vec![1, 1, 0, 2]]);
+        let mut scripts: Vec<Vec<usize>> = tier.pick(vec![vec![], vec![1, 0, 1], vec![0, 1]], vec![vec![], vec![1, 0, 1], vec![0, 1], vec![0, 1, 1, 1], vec![1, 1, 0, 2]]);
+        if tier == Tier::Thorough {
+            scripts.extend(crate::checks::c13::random_scripts(seed, 12));
+        }
         for script in scripts {
             for target in 0..n {
                 for stray in [
